@@ -39,6 +39,10 @@ func c19Prom(c *vk.Ctx) {
 	for pair := 0; pair < harness.C19Pairs; pair++ {
 		jobs = append(jobs, two(pair, 1, dEnd, budget), two(pair, 2, dEnd, budget))
 	}
+	// (2c) the same pairs one after the other: session B starts when session A has ended (in both orders)
+	for pair := 0; pair < harness.C19Pairs; pair++ {
+		jobs = append(jobs, Job{Harness: "PromSessions", Bound: -1, BudgetS: vk.Pick(c, 60.0, 600.0), FallbackDelay: 4, Params: map[string]int{"mode": 2, "pair": pair, "end": 4}})
+	}
 	n2 := len(jobs)
 	// (1) all single-session histories: ALL schedules incl. the teardown by cancel; inbound close and the
 	// cancel at every cut point within a delay bound
@@ -51,7 +55,7 @@ func c19Prom(c *vk.Ctx) {
 			}
 		}
 	}
-	c.P.Rule = "E1: one Prometheus registry + NewPrometheusMiddleware per execution around a scripted downstream (REQ x* -> CLOSED, REQ live -> EOSE + EVENT, other REQ -> EOSE, EVENT -> OK, COUNT -> COUNT). (1) ALL single-session client histories up to the stated length over {" + strings.Join(harness.C19SymbolNames, ", ") + "}: on ALL schedules (unbounded, state caching) incl. the teardown by cancel after the history was served; with inbound close, and (all but the longest histories) with a canceller enabled from the start (every cut point), within a delay bound. (2) 10 pairs of concurrent sessions over one middleware value x 3 endings of session A while it has subscriptions open (environment task cancels at every cut point; cancel after the scripts; inbound close), all schedules within the stated delay bound; the serving phase alone (no teardown) within a larger delay bound and, thorough tier, the two smallest pairs on ALL schedules. Oracle at every quiescence (scripts served / A ended / all ended), registry read with Gather(): both message streams unaltered and in order (complete for live sessions, an in-order subsequence for ended ones); connection gauge = sessions whose ServeNostr has not returned; subscription gauge = a sum of per-session values each explained by some interleaving of that session's REQ/CLOSE sequence with the downstream's CLOSED messages (ended sessions contribute 0); recv/send counters per type and the per-kind event counter = messages taken by the middleware"
+	c.P.Rule = "E1: one Prometheus registry + NewPrometheusMiddleware per execution around a scripted downstream (REQ x* -> CLOSED, REQ live -> EOSE + EVENT, other REQ -> EOSE, EVENT -> OK, COUNT -> COUNT). (1) ALL single-session client histories up to the stated length over {" + strings.Join(harness.C19SymbolNames, ", ") + "}: on ALL schedules (unbounded, state caching) incl. the teardown by cancel after the history was served; with inbound close, and (all but the longest histories) with a canceller enabled from the start (every cut point), within a delay bound. (2) 10 pairs of concurrent sessions over one middleware value x 3 endings of session A while it has subscriptions open (environment task cancels at every cut point; cancel after the scripts; inbound close), all schedules within the stated delay bound; the serving phase alone (no teardown) within a larger delay bound and, thorough tier, the two smallest pairs on ALL schedules; and the same pairs with the sessions run one after the other (B starts when A, possibly with subscriptions open, has ended). Oracle at every quiescence (scripts served / A ended / all ended), registry read with Gather(): both message streams unaltered and in order (complete for live sessions, an in-order subsequence for ended ones); connection gauge = sessions whose ServeNostr has not returned; subscription gauge = a sum of per-session values each explained by some interleaving of that session's REQ/CLOSE sequence with the downstream's CLOSED messages (ended sessions contribute 0); recv/send counters per type and the per-kind event counter = messages taken by the middleware"
 	res := runJobs(c, jobs)
 	var unclaimed int64
 	sample := func(r JobResult) {
